@@ -273,6 +273,19 @@ class Ser(Stub):
     def any(self, **k):
         return self.v is not ABSENT and bool(self.v) and not _isnan(self.v)
 
+    def resample(self, rule=None, *a, **k):
+        """Series.resample(rule).<reduction>(): the generic row of the coarser series (its value is the reduction of the one reading)."""
+        me = self
+
+        class _Res(Stub):
+            def _red(self_, *a_, **k_):
+                return Ser(me.v)
+            sum = mean = first = last = max = min = median = _red
+
+            def count(self_, *a_, **k_):
+                return Ser(ABSENT if me.v is ABSENT else (0 if _isnan(me.v) else 1))
+        return _Res()
+
     # the values of the one row as a NumPy array: same abstraction, no index to align on
     def to_numpy(self, dtype=None, **k):
         return self.astype(dtype) if dtype is not None else Ser(self.v)
